@@ -18,7 +18,7 @@ def run(tier, seed):
     c.bounds['cross_feature'] = '%d programs picked from the construct families (calls / this, scopes, control, heap, objects, destructuring, sequences, equality, rendering, diagnostics)' % len(xs)
     c.run_family('cross-feature', xs, ('exit', 'stdout', 'stderr-empty', 'panic', 'hang'), crossfeature.role, par_templates=8, par_paths=2)
     rs = randprog.templates(tier, seed)
-    for t in rs: t['max_dec'] = 7
+    for t in rs: t['max_dec'] = 7; t['droppable'] = True
     c.bounds['random_programs'] = '%d generated programs of 8-20 statements over the whole feature set (kind-tracking grammar, VERIF_SEED), integer / boolean leaves symbolic' % len(rs)
     c.run_family('random-programs', rs, ('exit', 'stdout', 'stderr-empty', 'panic', 'hang'), randprog.role, par_templates=8, par_paths=2, timeout=300)
     return c.finish()
